@@ -171,6 +171,14 @@ def differential(chk, pid, progs, entries, label, model_lines=None, extra_check=
     for e in entries:
         il = [e + " " + p["text"].encode().hex() + " " + " ".join(gen.hexv(a) for a in p["args"]) for p in progs]
         results[e] = lib.run_impl("compile", il, timeout=(20 if chk.tier == "quick" else 120), per_job=4)
+        # a time limit hit on a busy machine is not a verdict: every such line is run again, alone,
+        # with a limit far beyond anything a healthy compile of these programs needs
+        slow = [i for i, o in enumerate(results[e]) if o.split()[:1] == ["timeout"]]
+        if slow:
+            again = lib.run_impl("compile", [il[i] for i in slow], timeout=600, per_job=1)
+            for i, o in zip(slow, again):
+                results[e][i] = o
+            chk.count(f"{label}:{e}:retried-after-timeout", len(slow))
     for i, p in enumerate(progs):
         mf = mo[i].split()
         nontrivial = p["nfns"] > 0 or any(k in p["text"] for k in ("(let", "(assign", "(lambda"))
